@@ -10,7 +10,7 @@ PKG[C19-1]=store/datas; TESTS[C19-1]="./store/datas/"
 PKG[C19-2]=libraries/doltcore/doltdb; TESTS[C19-2]="./libraries/doltcore/doltdb/"
 PKG[C29]=libraries/doltcore/merge; TESTS[C29]="./libraries/doltcore/merge/"
 PKG[C46]=libraries/doltcore/doltdb; TESTS[C46]="./libraries/doltcore/doltdb/"
-PKG[C23]=libraries/doltcore/sqle/dsess; TESTS[C23]="./libraries/doltcore/sqle/dsess/"
+PKG[C23]=libraries/doltcore/sqle/enginetest; TESTS[C23]="./libraries/doltcore/sqle/dsess/"
 mode=$1; shift
 for s in "$@"; do
   p=${s%-*}
